@@ -90,3 +90,87 @@ func H07_envcheck() {
 		sv.Assert("nothing-evaluated", probed == 0)
 	}
 }
+
+// a host environment whose yae type depends on its values: a nil pointer
+// field is an absent optional (maybe[num]), a non-nil one a num; an
+// interface field has the type of what it holds
+type c07Host struct {
+	N float64     `yae:"n"`
+	P *float64    `yae:"p"`
+	I interface{} `yae:"i"`
+}
+
+func c07MakeHost(shape int, name string) c07Host {
+	h := c07Host{N: sv.Float64(name + ".n")}
+	if shape%2 == 1 {
+		f := sv.Float64(name + ".p")
+		h.P = &f
+	}
+	switch shape / 2 {
+	case 0:
+		h.I = sv.Float64(name + ".i")
+	case 1:
+		h.I = "text"
+	default:
+		h.I = true
+	}
+	return h
+}
+
+// H07_host: one Callable compiled against a host struct and invoked twice
+// with other values of the same Go type. Each invocation is judged on its
+// own: accepted and evaluated iff that value's bindings have the compile-time
+// types, otherwise an error and nothing evaluated - whatever the Callable
+// has seen before (an accepted call must not vouch for the next one).
+func H07_host() {
+	e := exprWith(sv.Choice("backend", hx.NBackends))
+	probed := 0
+	a := types.TyVar("a")
+	e.RegisterFun(val.Fun(types.Fun("probe", []*types.Type{a}, a), func(args ...*val.Val) *val.Val {
+		probed++
+		return args[0]
+	}))
+	s0 := sv.Choice("compiled-against", 6)
+	sample := c07MakeHost(s0, "sample")
+	byPtr := sv.Choice("by-pointer", 2) == 1
+	var c Callable
+	var err error
+	cls := sv.Outcome(func() {
+		if byPtr {
+			c, err = e.Compile("probe(n)", &sample)
+		} else {
+			c, err = e.Compile("probe(n)", sample)
+		}
+	})
+	sv.Assert("compile-does-not-panic", cls == "ok")
+	sv.Assert("compiles", err == nil)
+	if cls != "ok" || err != nil {
+		return
+	}
+	for k := 0; k < 2; k++ {
+		sk := sv.Choice("call"+string(rune('1'+k)), 6)
+		h := c07MakeHost(sk, "env"+string(rune('1'+k)))
+		before := probed
+		var r *val.Val
+		cls := sv.Outcome(func() {
+			if byPtr {
+				r, err = c(&h)
+			} else {
+				r, err = c(h)
+			}
+		})
+		sv.Assert("callable-does-not-panic", cls == "ok")
+		if cls != "ok" {
+			return
+		}
+		if sk == s0 {
+			sv.Reach("conforming")
+			sv.Assert("conforming-environment-accepted", err == nil)
+			sv.Assert("evaluates-normally", err != nil || (r != nil && r.Type == types.Num && sv.Same(r.Num().V, h.N) && probed == before+1))
+		} else {
+			sv.Reach("mismatching")
+			sv.Assert("mismatching-environment-rejected", err != nil)
+			sv.Assert("nothing-evaluated", probed == before)
+		}
+	}
+}
